@@ -4,7 +4,7 @@
 From Coq Require Import List NArith Bool.
 From Conductor Require Import Lib.Str.
 Import ListNotations.
-Open Scope N_scope.
+Local Open Scope N_scope.
 
 Fixpoint list_eqb {A} (eqb : A -> A -> bool) (a b : list A) : bool :=
   match a, b with
